@@ -18,7 +18,7 @@ RULE = ('mask(): every length 10..40 x {digits, letters, the mask character itse
         'through loads and through IpmReader (VBS and 1014) the element must equal the reference mask / first nine digits and '
         'the clear PAN must occur in no str value and (encoded) in no bytes value. Non-trivial = length not in {12, 16} or the '
         'processor on a bit other than 2; distinct by digest.')
-ASSUMPTIONS = ['mask characters are single characters', 'card numbers have at least 10 characters',
+ASSUMPTIONS = ['half of the configurations are passed through JSON (as from --config-file): equal values, fresh string objects', 'mask characters are single characters', 'card numbers have at least 10 characters',
                'the middle digits are not searched for as a substring (a PAN such as 1111... legitimately repeats them in its first six)']
 
 MASK_CHARS = ['*', '#', 'X', 'x', '0', '9', '-', ' ', '.', '•', 'é', '\\']
@@ -37,6 +37,15 @@ def check_mask(number, ch):
     for i in range(6, n - 4):
         if out[i] != ch:
             return 'mask-middle', f'mask({number!r}, {ch!r}) = {out!r}: position {i} is not the mask character'
+    # the result is a function of (number, mask character): the same number under another mask character and then the
+    # first call again give the corresponding results
+    other = '#' if ch != '#' else '*'
+    try:
+        o2, o3 = card.mask(number, other), card.mask(number, ch)
+    except Exception as ex:
+        return exc_sig('mask-raises:on-repeat', ex), f'mask({number!r}) raised {ex!r} on a repeated call'
+    if o3 != out or o2 != number[:6] + other * (n - 10) + number[n - 4:]:
+        return 'mask-differs:on-repeat', f'mask({number!r}, {other!r}) = {o2!r} and then mask({number!r}, {ch!r}) = {o3!r} (first call gave {out!r})'
     return None
 
 
@@ -111,6 +120,8 @@ def decode_cases(draw, tier):
         config[str(b)] = {'field_type': kind, 'field_length': ln if kind == 'FIXED' else 0}
         msg['DE%d' % b] = draw(gen_iso.tiled_text(codec, ln, alphabet=alpha))
     blocked = draw(st.booleans())
+    if draw(st.booleans()):
+        config = gen_iso.from_json(config)       # as loaded from a configuration file: equal, but no interned literals
     return config, codec, hexbm, msg, bit, proc, blocked
 
 
@@ -175,6 +186,8 @@ def sweep_decode(ctx):
                           '3': {'field_type': 'FIXED', 'field_length': 6}}
                 if ln % 2:
                     config['2']['field_python_type'] = 'string'
+                if ln % 4 < 2:
+                    config = gen_iso.from_json(config)
                 pan = ('5412345678901234567' * 60)[:ln]
                 msg = {'MTI': '1240', 'DE2': pan, 'DE3': 'ABCDEF'}
                 n += 1
